@@ -835,8 +835,9 @@ class ExchangeRate:
         """
         if isinstance(other, Money):
             if other.unit is self.unit_currency:
-                return other.__class__(other.amount * self.rate,
-                                       self.term_currency)
+                # the term currency may belong to another class of money
+                return self.term_currency.qty_cls(other.amount * self.rate,
+                                                  self.term_currency)
             raise ValueError("Can't multiply '%s' and '%s/%s'."
                              % (other.unit, self.term_currency,
                                 self.unit_currency))
@@ -950,8 +951,9 @@ class ExchangeRate:
         """
         if isinstance(other, Money):
             if other.unit is self.term_currency:
-                return other.__class__(other.amount * self.inverse_rate,
-                                       self.unit_currency)
+                # the unit currency may belong to another class of money
+                return self.unit_currency.qty_cls(
+                    other.amount * self.inverse_rate, self.unit_currency)
             raise ValueError("Can't divide '%s' by '%s/%s'"
                              % (other.unit, self.term_currency,
                                 self.unit_currency))
